@@ -365,6 +365,56 @@ func census(repo string, pkgs []*packages.Package) {
 	}
 	facts["census_pkg_vars"] = pkgVars
 	facts["census_mem_fields"] = memFields
+
+	// dereferences of a recipient pointer, `*x.To()`: nil for a contract creation.  Each site is recorded with whether
+	// the enclosing function compares a To() result with nil at all (finding F21: NewTracer did not).
+	var toDerefs []Site
+	for _, p := range pkgs {
+		for _, file := range p.Syntax {
+			fname := p.Fset.Position(file.Pos()).Filename
+			if isTest(fname) {
+				continue
+			}
+			r := rel(repo, fname)
+			isToCall := func(e ast.Expr) bool {
+				ce, ok := e.(*ast.CallExpr)
+				if !ok || len(ce.Args) != 0 {
+					return false
+				}
+				sel, ok := ce.Fun.(*ast.SelectorExpr)
+				return ok && (sel.Sel.Name == "To" || sel.Sel.Name == "GetTo")
+			}
+			guards := map[string]bool{}
+			walkWithFunc(file, func(n ast.Node, fun string) {
+				if be, ok := n.(*ast.BinaryExpr); ok && (be.Op == token.EQL || be.Op == token.NEQ) {
+					if id, ok := be.Y.(*ast.Ident); ok && id.Name == "nil" && isToCall(be.X) {
+						guards[fun] = true
+					}
+				}
+			})
+			walkWithFunc(file, func(n ast.Node, fun string) {
+				if st, ok := n.(*ast.StarExpr); ok && isToCall(st.X) {
+					if tv, ok := p.TypesInfo.Types[st.X]; ok {
+						if _, isPtr := tv.Type.Underlying().(*types.Pointer); !isPtr {
+							return
+						}
+					}
+					g := "unguarded"
+					if guards[fun] {
+						g = "guarded"
+					}
+					toDerefs = append(toDerefs, Site{r, 0, fun, g})
+				}
+			})
+		}
+	}
+	sort.Slice(toDerefs, func(i, j int) bool {
+		if toDerefs[i].File != toDerefs[j].File {
+			return toDerefs[i].File < toDerefs[j].File
+		}
+		return toDerefs[i].Func < toDerefs[j].Func
+	})
+	facts["census_to_derefs"] = toDerefs
 }
 
 // bodyHasEffects: does the loop body do anything besides building a local collection?
